@@ -589,13 +589,13 @@ fn lex_char(
         let mut string = String::new();
         string.push(parsed);
         string.push(escape(l, next_char)?);
-        loop {
-            let (_, next_char) = next(l)?;
+        let close_quote_index = loop {
+            let (next_index, next_char) = next(l)?;
             if is_quote(next_char) {
-                break;
+                break next_index;
             }
             string.push(next_char);
-        }
+        };
 
         // Emit the expected closing quote error.
         error(
@@ -604,7 +604,10 @@ fn lex_char(
                 kind: LexErrorKind::ExpectedCloseQuote {
                     position: next_index,
                 },
-                span: span(l, next_index, next_index + string.len()),
+                // From the second character up to and including the closing quote.
+                // Byte lengths of the parsed characters can differ from their lengths
+                // in the source, so the end is taken from the lexer position.
+                span: span(l, next_index, close_quote_index + '\''.len_utf8()),
             },
         );
 
